@@ -34,7 +34,7 @@ class ArgsFormat(object):
             base_format = builder.base_format
 
         self._base_format = base_format
-        self._command_names = builder.get_command_names(False)
+        self._command_names = list(builder.get_command_names(False))
         self._command_options = {}
         self._command_options_by_short_name = {}
         self._arguments = builder.get_arguments(False)
